@@ -54,6 +54,11 @@ F3r == [Base("F3r", <<"C","O","N">>, <<0,1,2>>, <<<<5,1,1>>,<<6,1,1>>,<<5,2,1>>>
           EXCEPT !.bond = Terms("F3r", "b", <<<<0,1>>,<<1,2>>,<<2,0>>>>, <<0,1,2>>, 3, TRUE),
                  !.angle = Terms("F3r", "n", <<<<0,1,2>>,<<1,2,0>>,<<2,0,1>>>>, <<0,1,2>>, 3, TRUE)]
 
+\* force-field typed structure: the same element in two different atom types (C.a0 and C.a2)
+F3e == [Base("F3e", <<"C","N","C">>, <<0,1,2>>, <<<<5,5,2>>,<<6,5,2>>,<<7,5,2>>>>, <<0,0,0>>, TRUE)
+          EXCEPT !.bond = Terms("F3e", "b", <<<<0,1>>,<<1,2>>>>, <<0,1>>, 2, TRUE),
+                 !.angle = Terms("F3e", "n", <<<<0,1,2>>>>, <<0>>, 1, TRUE)]
+
 \* laid over an F3r instance (same three positions): redeclares only one of the three ring angles, backwards
 F3q == [Base("F3q", <<"C","O","N">>, <<0,1,2>>, <<<<5,1,1>>,<<6,1,1>>,<<5,2,1>>>>, <<4,4,4>>, TRUE)
           EXCEPT !.angle = Terms("F3q", "n", <<<<2,1,0>>>>, <<0>>, 1, TRUE),
@@ -91,10 +96,10 @@ F2y == [Base("F2y", <<"Cu","O">>, <<0,1>>, <<<<3,3,1>>,<<3,4,1>>>>, <<0,0>>, FAL
 Empty == Base("E", <<>>, <<>>, <<>>, <<>>, FALSE)
 
 Frag(f) == CASE f = "F1p" -> F1p [] f = "F2p" -> F2p [] f = "F2b" -> F2b [] f = "F3p" -> F3p
-             [] f = "F4p" -> F4p [] f = "F3r" -> F3r [] f = "F3q" -> F3q [] f = "F3a" -> F3a [] f = "F4b" -> F4b [] f = "F3x" -> F3x [] f = "F2y" -> F2y [] f = "E" -> Empty
+             [] f = "F4p" -> F4p [] f = "F3r" -> F3r [] f = "F3e" -> F3e [] f = "F3q" -> F3q [] f = "F3a" -> F3a [] f = "F4b" -> F4b [] f = "F3x" -> F3x [] f = "F2y" -> F2y [] f = "E" -> Empty
 
 \* flavour: "p" = carries coefficient tables, "b" = bare, "n" = neutral (no atoms)
-Flavour(f) == CASE f \in {"F1p","F2p","F3p","F4p","F3r","F3q","F3a"} -> "p" [] f = "E" -> "n" [] OTHER -> "b"
+Flavour(f) == CASE f \in {"F1p","F2p","F3p","F4p","F3r","F3e","F3q","F3a"} -> "p" [] f = "E" -> "n" [] OTHER -> "b"
 
 \* cells (rows are the cell vectors, lattice units); <<>> = no cell
 CellOf(c) == CASE c = "none" -> <<>>
